@@ -39,9 +39,10 @@ type c13Listener struct {
 // viewChecker couples one observed view (a container or a Subscriber) with its model
 // and its listeners, and checks the statement's clauses around one event.
 type viewChecker struct {
-	m         *regModel
-	listeners []*c13Listener
-	values    func() []string
+	m            *regModel
+	listeners    []*c13Listener
+	values       func() []string
+	undetermined int // events after which the model left a value's membership open
 }
 
 // newListener returns the callback to register with the code under test.
@@ -79,6 +80,9 @@ func (vc *viewChecker) after(b viewBefore) string {
 	// a second read must serve the same (cached) view
 	if again := vc.values(); !sameSet(setOf(again), setOf(got)) || len(again) != len(got) {
 		return fmt.Sprintf("two consecutive Values() differ: %v then %v", sortedCopy(got), sortedCopy(again))
+	}
+	if vc.m.ambiguous() {
+		vc.undetermined++
 	}
 	vc.m.settle(setOf(got))
 	mustAfter, mayAfter := vc.m.bounds()
@@ -262,13 +266,9 @@ func TestVerifC13Container(t *testing.T) {
 		if got := h.c.getValues(); len(got) != 0 {
 			t.Fatalf("fresh container has values %v", got)
 		}
-		sawAmbiguous := false
 		fail := func(msg string) {
 			if msg != "" {
 				t.Fatalf("%s\nhistory: %s", msg, h.log.String())
-			}
-			if h.m.ambiguous() {
-				sawAmbiguous = true
 			}
 		}
 		t.Repeat(map[string]func(*rapid.T){
@@ -324,7 +324,7 @@ func TestVerifC13Container(t *testing.T) {
 		} else {
 			st.Class("shared")
 		}
-		if sawAmbiguous {
+		if h.undetermined > 0 {
 			st.Class("exclusive-undetermined-after-reload")
 		}
 		if h.reloads > 0 {
